@@ -131,6 +131,10 @@ def matcher(P, E, chk):
             continue
         rk = pp(sk(rexp))
         bad = [d for d in ds if not (guard.d_holds(d, "==", rk, 0) or guard.d_holds(d, "==", "%s[%s - 1]" % (qn, rk), ord(".")))]
+        if bad and ("$" in rk or sk(rexp).get("k") != "Ref"):
+            chk.undecided(r3, f, ir.loc(b.elems[i]), "return %s" % rk, "the reported position is the value of a helper or of a pointer "
+                          "difference; the label-boundary facts are not available in terms of an index into %s" % qn)
+            continue
         chk.site(r3, f, ir.loc(b.elems[i]), "return %s" % rk, not bad,
                  "at the start of the name or right after a dot" if not bad else
                  "a match can be reported in the middle of a label")
